@@ -938,6 +938,16 @@ func (e *Exec) chanSend(ch *ChanObj, v Value) {
 	if ch.Closed {
 		e.definitePanic("chan", "send on closed channel")
 	}
+	if ch.Cap > 0 && len(ch.Buf) >= ch.Cap {
+		// a full buffered channel: let the other goroutines run (one may receive), otherwise the sender stays blocked
+		e.runPendingTasks()
+		if len(ch.Buf) >= ch.Cap {
+			if e.inTask > 0 {
+				panic(taskParked{})
+			}
+			e.end("limit", "send on a full channel blocks forever at "+e.where())
+		}
+	}
 	ch.Buf = append(ch.Buf, v)
 }
 
@@ -1003,6 +1013,9 @@ func (e *Exec) selectOp(fr *frame, x *ssa.Select) Value {
 	if !x.Blocking {
 		out[0] = e.tb.ConstI(64, -1)
 		return out
+	}
+	if e.inTask > 0 {
+		panic(taskParked{}) // a goroutine waiting in a select that nothing can satisfy any more
 	}
 	e.end("limit", "blocking select with no ready case at "+e.where())
 	return nil
